@@ -619,7 +619,8 @@ func (o *operation) handle() {
 }
 
 func (o *operation) resolveMethod(transcoder *Transcoder) error {
-	uriPath := o.request.URL.Path
+	// Methods are looked up by the raw path, like REST routes below.
+	uriPath := o.request.URL.EscapedPath()
 	if o.client.protocol.protocol() == ProtocolREST {
 		var methods routeMethods
 		// Path templates are matched against the raw path: variables are percent-decoded
